@@ -104,9 +104,12 @@ UNIT_BITS = {"i": 32, "l": 64, "d": 64, "f": 32, "h": 16, "b": 8, "L": 64, "n": 
 class PyWorld(object):
     """abstract CPython state for one call"""
 
-    def __init__(self, e, ex, total, npos):
+    def __init__(self, e, ex, total, npos, hole=-1):
         self.e, self.ex = e, ex
         self.total, self.npos, self.nkw = total, npos, total - npos
+        # hole >= 0: the keyword arguments skip the (defaulted) parameter at that position, so the supplied positions are
+        # 0 .. total without `hole`; hole < 0: the first `total` parameters are supplied
+        self.hole = hole
         self.err = None
         self.misuse = []
         self.parse_n = 0
@@ -118,6 +121,15 @@ class PyWorld(object):
         if self.nkw > 0:
             self.kwds = ex.new_obj("py_kwds_dict", 64, "extern")
             self.kwds.tag["py"] = ("dict", self.nkw)
+
+    def supplied(self, j):
+        if self.hole < 0:
+            return j < self.total
+        return j <= self.total and j != self.hole
+
+    def maxpos(self):
+        """number of leading parameter positions the call reaches (last supplied position + 1)"""
+        return self.total if self.hole < 0 else self.total + 1
 
     def new(self, kind, value=None, refcnt=1):
         o = self.ex.new_obj("py_" + kind, 64, "extern")
@@ -229,11 +241,11 @@ def install_python(ex, w):
             w.misuse.append("PyArg_ParseTupleAndKeywords is not given the args tuple")
         total = w.total
         fail = False
-        if w.npos > len(units) or total > len(units) or total < nreq:
-            fail = True
+        if w.npos > len(units) or w.maxpos() > len(units) or any(not w.supplied(j) for j in range(nreq)):
+            fail = True         # too many arguments / an unknown keyword / a required argument is missing
         ok_all = True
         if not fail:
-            for j in range(total):
+            for j in [j_ for j_ in range(len(units)) if w.supplied(j_)]:
                 if units[j][0] == "O":
                     continue            # any object is accepted as it is
                 okj = z3.Bool("conv_ok_%d_%d" % (pn, j))
@@ -249,7 +261,7 @@ def install_python(ex, w):
         for j, (code, _) in enumerate(units):
             ptrs = vp[vi:vi + (2 if code in ("O!", "O&", "s#", "z#") else 1)]
             vi += len(ptrs)
-            if j >= total:
+            if not w.supplied(j):
                 continue        # optional argument not supplied: its variable is left untouched
             if code in UNIT_BITS:
                 bits = UNIT_BITS[code]
@@ -608,7 +620,13 @@ class PyHarness(object):
         if "METH_NOARGS" in self.entry["flags"] and total > 0:
             from engines.shadowsym.core import Infeasible
             raise Infeasible()      # CPython itself rejects arguments to a METH_NOARGS function
-        w = PyWorld(e, ex, total, npos)
+        hole = -1
+        if len(self.entry["sigs"]) == 1 and total - npos >= 1:
+            # keyword arguments may skip one parameter (single-signature functions: the keyword names are that signature's)
+            hv = z3.Int("skipped")
+            e.assume(z3.And(hv >= -1, hv < total, z3.Or(hv == -1, hv >= npos)))
+            hole = e.choose(hv)
+        w = PyWorld(e, ex, total, npos, hole)
         self.w = w
         install_python(ex, w)
         self.calls = []
@@ -773,6 +791,7 @@ class PyHarness(object):
     def witness(self, m, what):
         w = self.w
         return {"kernel": "python", "function": self.pyname, "supplied": w.total, "positional": w.npos, "keyword": w.nkw,
+                "skipped": w.hole,
                 "parses": [{"format": p["format"], "converted": p["ok"]} for p in w.parses],
                 "called": [c[0] for c in self.calls], "error_set": w.err, "api_misuse": list(w.misuse), "what": what,
                 "lists": {str(j): ("not a sequence" if ob.obj.tag.get("as_list") == "no" else
@@ -797,7 +816,8 @@ class PyHarness(object):
             if "PyDict_Size called on tuple" in w.misuse[0]:
                 known = "pydict-size-args"
         # which signature does the call select?
-        sel = [s for s in self.entry["sigs"] if len(in_params(s)) - sum(1 for p in in_params(s) if p.init is not None) <= w.total <= len(in_params(s))]
+        sel = [s for s in self.entry["sigs"] if w.maxpos() <= len(in_params(s)) and
+               all(w.supplied(j_) for j_, p in enumerate(in_params(s)) if p.init is None)]
         parsed_ok = [p for p in w.parses if p["ok"]]
         # list-mode array arguments: a signature accepts the call only if the object is a sequence whose items all
         # convert to its element type (an int item converts to int and double, a float item to double only)
@@ -868,7 +888,7 @@ class PyHarness(object):
                     else:
                         # every supplied argument reaches the library with its stored value; the arity is the supplied count
                         nout = len(out_params(sig))
-                        if ncall != w.total + nout + (0 if True else 0) and ncall != len(sig.params):
+                        if w.hole < 0 and ncall != w.total + nout + (0 if True else 0) and ncall != len(sig.params):
                             fail = "the library is called with %d arguments for %d supplied" % (ncall, w.total)
                         idx = z3.BitVec("idx", 64)
                         j = 0
@@ -877,7 +897,20 @@ class PyHarness(object):
                                 break
                             if p.intent not in ("in", "inout"):
                                 continue
-                            if j >= w.total:
+                            if j == w.hole:
+                                # a parameter skipped by keyword is passed explicitly: it must carry its declared default
+                                if v[0] == "scalar" and not is_concrete(v[1]):
+                                    fail = "parameter '%s', skipped by keyword, reaches the library with an uninitialised value instead of its default %s" % (p.name, p.init)
+                                    known = "keyword-skips-default"
+                                elif v[0] == "scalar" and default_value(p.init) is not None:
+                                    dv = default_value(p.init)
+                                    a_ = v[1]
+                                    bad_ = (a_ != (dv != 0)) if z3.is_bool(a_) else (a_ != z3.BitVecVal(dv, a_.size()))
+                                    if e.check(bad_) == "sat":
+                                        fail = "parameter '%s', skipped by keyword, reaches the library with a value other than its default %s" % (p.name, p.init)
+                                j += 1
+                                continue
+                            if not w.supplied(j):
                                 # compiler-supplied default of an omitted argument: must come from an arity that omits it
                                 if ncall == len(sig.params) and sig.ndefault and v[0] == "scalar" and not is_concrete(v[1]):
                                     fail = "omitted argument '%s' reaches the library with an uninitialised value" % p.name
@@ -1159,6 +1192,21 @@ def dim_count(attr, env):
     return z3.SignExt(32, total)
 
 
+def default_value(text):
+    """integer meaning of a default-value spelling, None when it is not a plain literal"""
+    if isinstance(text, bool):
+        return int(text)
+    if isinstance(text, int):
+        return text
+    t = str("" if text is None else text).strip()
+    if t in ("true", "false"):
+        return 1 if t == "true" else 0
+    try:
+        return int(t, 0)
+    except ValueError:
+        return None
+
+
 def is_concrete(v):
     if z3.is_bool(v):
         s = z3.simplify(v)
@@ -1227,6 +1275,9 @@ def native_call(w):
                            stdout=subprocess.PIPE, stderr=subprocess.STDOUT, universal_newlines=True)
         if p.returncode != 0:
             return None
+        hole = w.get("skipped", -1)
+        if hole is None:
+            hole = -1
         sig = entry["sigs"][0]
         for s in entry["sigs"]:
             if len(in_params(s)) >= w["supplied"]:
@@ -1255,6 +1306,8 @@ def native_call(w):
             return "[" + ", ".join({"int": "3", "float": "2.5", "other": "object()", "str": "'ab'", "none": "None"}[k] for k in li) + "]"
         posargs = [sample_of(j, p) for j, p in enumerate(ins[:w["positional"]])]
         kwargs = ["%s=%s" % (p.name, sample_of(w["positional"] + j, p)) for j, p in enumerate(ins[w["positional"]:w["supplied"]])]
+        if hole >= 0:
+            kwargs = ["%s=%s" % (p.name, sample_of(j, p)) for j, p in enumerate(ins[:w["supplied"] + 1]) if j >= w["positional"] and j != hole]
         extra = ["1"] * max(0, w["positional"] - len(ins))
         call = "pyl.%s(%s)" % (w["function"], ", ".join(posargs + extra + kwargs))
         prog = ("import sys; sys.path.insert(0, %r); import pyl\n"
@@ -1263,6 +1316,8 @@ def native_call(w):
         out = p.stdout
         valid = any(len(in_params(s)) - sum(1 for q in in_params(s) if q.init is not None) <= w["supplied"] <= len(in_params(s))
                     for s in entry["sigs"]) and w["positional"] <= max(len(in_params(s)) for s in entry["sigs"])
+        if hole >= 0:
+            valid = w["supplied"] + 1 <= len(ins) and all(q.init is not None for j, q in enumerate(ins) if j == hole or j > w["supplied"])
         if lists:
             def sig_accepts(sg):
                 for j_, p_ in enumerate(in_params(sg)[:w["supplied"]]):
@@ -1296,6 +1351,10 @@ def native_call(w):
                 return "%s: the library was called %d times natively" % (call, len(libline))
             got = libline[0].split()[1:]
             want = [shown.get(p_.tname, "1") for p_ in ins[:w["supplied"]]]
+            if hole >= 0:
+                # the skipped parameter arrives with its declared default, the others with the sample values
+                want = [(str(default_value(p_.init)) if j_ == hole and default_value(p_.init) is not None else shown.get(p_.tname, "1"))
+                        for j_, p_ in enumerate(ins[:w["supplied"] + 1])]
             if lists:
                 li = [v_ for v_ in lists.values() if v_ != "not a sequence"][0]
                 want = [{"int": "3", "float": "2.5"}.get(k_, "?") for k_ in li] + ["|", str(len(li))]
@@ -1386,7 +1445,7 @@ def main():
         "disagreements_checked": confirmed,
         "samples": samples[:12],
         "functions_encoded": ["%s (%s)" % (funcs[n]["cfunc"], n) for n in sorted(funcs)],
-        "bounds": {"supplied_arguments": "0 .. #parameters+1, every split into positional / keyword (keywords name the trailing supplied parameters)",
+        "bounds": {"supplied_arguments": "0 .. #parameters+1, every split into positional / keyword; the keywords name the trailing supplied parameters or, for single-signature functions, skip one parameter (required: must be rejected; defaulted: the library must receive its declared default)",
                    "values": "full-width symbolic converted values, strings <= 3 chars"},
         "solver": {"name": "z3 " + z3.get_version_string(), "queries": total.stats.queries, "solver_s": round(total.stats.solver_s, 2)},
         "paths": total.stats.paths,
@@ -1396,7 +1455,7 @@ def main():
     }
     assumptions = [
         "the CPython API is a contract model: PyArg_ParseTupleAndKeywords (constant format string decoded from the IR), PyTuple_Size, PyDict_Size, PyLong_FromLong, PyFloat_FromDouble, PyBool_FromLong, PyUnicode_FromString[AndSize], Py_BuildValue, PyObject_IsTrue, PyErr_*; calling a size function on the wrong kind of object follows the documented behaviour (-1, SystemError) and is reported",
-        "keyword arguments name a suffix of the supplied parameters (no defaulted parameter is skipped by keyword)",
+        "keyword arguments skip at most one parameter, and only on functions with a single signature (for overloads the keywords name a suffix of the supplied parameters)",
         "extension types / classes, reference-count balance, NumPy, list/vector helpers, struct arguments are outside",
         "counterexamples are confirmed natively: the generated module is compiled with g++ against CPython 3.12 and the call shape is performed from /venv/bin/python with a recording library",
     ]
